@@ -46,6 +46,9 @@ pub open spec fn is_zero(p: Primitive) -> bool { match p { Primitive::Float(f) =
 
 pub open spec fn no_overflow(k: int, op: int, x: int, y: int) -> bool { fits(k, exact(op, x, y)) && !(op != 0 && k != 3 && y == -1 && !fits(k, -x)) }
 pub open spec fn nonzero_divisor(op: int, y: int) -> bool { op == 0 || y != 0 }
+// the machine `%` refuses `MIN % -1` (the DIVISION overflows); the exact remainder, 0, is representable: a failure there is not one the
+// property allows, so reaching the machine operation with such operands is a violated precondition in BOTH modes (D111)
+pub open spec fn rem_refused(k: int, op: int, x: int, y: int) -> bool { op == 2 && k != 3 && y == -1 && !fits(k, -x) }
 
 // ---- machine operations (Rust, dev profile: overflow-checks on).  MODE_DOC ----
 MACHINE_OPS
@@ -66,12 +69,14 @@ def machine_ops(strict):
             pre = f"nonzero_divisor({opi}, y as int)" if op != "mul" else None
             ovf = f"no_overflow({k}, {opi}, x as int, y as int)"
             val = f"r as int == exact({opi}, x as int, y as int)"
+            rr = f"!rem_refused({k}, {opi}, x as int, y as int)"
             if strict:
                 req = ",\n        ".join(x for x in (pre, ovf) if x)
                 out.append(f"#[verifier::external_body] pub fn {op}_{ty}(x: {ty}, y: {ty}) -> (r: {ty})\n    requires\n        {req},\n    ensures {val}\n{{ unimplemented!() }}")
             else:
                 ens = ", ".join(x for x in (pre, ovf, val) if x)
-                out.append(f"#[verifier::external_body] pub fn {op}_{ty}(x: {ty}, y: {ty}) -> (r: {ty})\n    ensures {ens}\n{{ unimplemented!() }}")
+                reqs = f"\n    requires {rr}" if op == "rem" else ""
+                out.append(f"#[verifier::external_body] pub fn {op}_{ty}(x: {ty}, y: {ty}) -> (r: {ty}){reqs}\n    ensures {ens}\n{{ unimplemented!() }}")
     return "\n".join(out)
 
 
@@ -212,7 +217,7 @@ def build_mode(repo, strict):
 //@ OBL {tag}.{op}.integer-cells
 // expansion of apply_math_bin_op_if_applicable!(@no_f64 t1 {SYM[op]} t2)
 pub fn math_no_f64_{op}(t1: &Primitive, t2: &Primitive) -> (r: Option<Primitive>)
-    {'requires (is_intk(*t1) && is_intk(*t2)) ==> (nonzero_divisor(%d, ival(*t2)))' % opi if strict else ''}
+    requires (is_intk(*t1) && is_intk(*t2)) ==> !rem_refused(promote(kind(*t1), kind(*t2)), {opi}, ival(*t1), ival(*t2)){', (is_intk(*t1) && is_intk(*t2)) ==> (nonzero_divisor(%d, ival(*t2)))' % opi if strict else ''}
     ensures
         (is_intk(*t1) && is_intk(*t2)) ==> (r is Some && kind(r->Some_0) == promote(kind(*t1), kind(*t2))
             && ival(r->Some_0) == exact({opi}, ival(*t1), ival(*t2)) && nonzero_divisor({opi}, ival(*t2))),
@@ -224,7 +229,7 @@ pub fn math_no_f64_{op}(t1: &Primitive, t2: &Primitive) -> (r: Option<Primitive>
 //@ OBL {tag}.{op}.all-cells
 // expansion of apply_math_bin_op_if_applicable!(t1 {SYM[op]} t2)
 pub fn math_{op}(t1: &Primitive, t2: &Primitive) -> (r: Option<Primitive>)
-    {'requires (is_intk(*t1) && is_intk(*t2)) ==> (nonzero_divisor(%d, ival(*t2)))' % opi if strict else ''}
+    requires (is_intk(*t1) && is_intk(*t2)) ==> !rem_refused(promote(kind(*t1), kind(*t2)), {opi}, ival(*t1), ival(*t2)){', (is_intk(*t1) && is_intk(*t2)) ==> (nonzero_divisor(%d, ival(*t2)))' % opi if strict else ''}
     ensures
         (is_num(*t1) && is_num(*t2)) ==> r is Some && kind(r->Some_0) == promote(kind(*t1), kind(*t2)),
         (is_intk(*t1) && is_intk(*t2)) ==> r is Some && ival(r->Some_0) == exact({opi}, ival(*t1), ival(*t2)) && nonzero_divisor({opi}, ival(*t2)),
